@@ -88,13 +88,29 @@ def run(ck):
         body = oo.split(" || ", 1)[0]
         for part in body.split(" ;; "):
             sx, ev = part.split(" => ", 1) if " => " in part else (part, "")
+            ev, _, located = ev.partition(" @@ ")
+            ev = ev.strip()
             ids = Ids()
             fsx = parse_sexp(sx)[0]
             mlines.append(enc_file(fsx, ids))
             meta.append((ts, ids, ev.split(" ") if ev else [], fsx))
+            # what is presented is written in the file that is walked, and is presented in the order in which it is written
+            fname, prev = fsx[1], None
+            for item in located.split():
+                kind, fh, pos = item.split("@")
+                here = tuple(int(v) for v in pos.split(":"))
+                if fh != fname:
+                    ck.violation("traversal", "element-of-another-file-presented", "\n--\n".join(ts), "only what is written in %s" % bytes.fromhex(fname).decode(), "%s written in %s at %s" % (kind, bytes.fromhex(fh).decode(), pos),
+                                 signature={"kind": kind})
+                    break
+                if prev is not None and here <= prev[1]:
+                    ck.violation("traversal", "not-in-source-order", "\n--\n".join(ts), "every element after the one written before it", "%s at %s presented after %s at %d:%d" % (kind, pos, prev[0], prev[1][0], prev[1][1]),
+                                 signature={"kind": kind})
+                    break
+                prev = (kind, here)
     m = core.run_model("visit", mlines, chunk=2000)
     ck.stream("traversal", description="recording Visitor on every file of generated programs (all definition kinds, anonymous types nested to depth 3, aliases of anonymous types used across files, unresolvable references); "
-              "the model walks the AST as the public accessors present it; observable: the full event list (entity by scoped id, type reference by file:span)")
+              "the model walks the AST as the public accessors present it; observable: the full event list (entity by scoped id, type reference by file:span); and where every presented entity is written: in the file walked, each after the one before it")
     for ml, mo, (ts, ids, ev, fsx) in zip(mlines, m, meta):
         ck.count("traversal", ml, kind="file")
         if mo.startswith("SPECMISMATCH"):
